@@ -83,7 +83,9 @@ func replayFramerConn(v framerVec) (string, bool) {
 	defer a.Close()
 	defer b.Close()
 	mc := netceptor.MessageConnFromNetConn(b)
+	written := make(chan struct{})
 	go func() {
+		defer close(written)
 		pos := 0
 		for _, c := range v.Chunks {
 			if _, err := a.Write(stream[pos : pos+c]); err != nil {
@@ -93,12 +95,23 @@ func replayFramerConn(v framerVec) (string, bool) {
 		}
 	}()
 	for i := range frames {
-		m, err := mc.ReadMessage(context.Background(), 20*time.Second)
-		if err != nil {
-			if err == netceptor.ErrTimeout {
+		var m []byte
+		var err error
+		for tries := 0; ; tries++ {
+			m, err = mc.ReadMessage(context.Background(), 500*time.Millisecond)
+			if err != netceptor.ErrTimeout {
+				break
+			}
+			select {
+			case <-written: // the whole stream has been handed over and still no message: definite
+				return fmt.Sprintf("message %d of %d never came out although all %d bytes were delivered", i+1, len(frames), len(stream)), false
+			default:
+			}
+			if tries > 60 {
 				return "timeout", true
 			}
-
+		}
+		if err != nil {
 			return fmt.Sprintf("ReadMessage %d: %v", i, err), false
 		}
 		if !bytes.Equal(m, frames[i]) {
